@@ -168,13 +168,14 @@ def run(facts, rep, tier):
     rep.anchor("TAIL", "call of FormatWriter::finish in Formatter::format", fin_states)
     for s in sorted(fin_states):
         ok = s[0] == "N1"
-        rep.oblige("TAIL", "finish@" + s[0], ok, sample={"rule": "TAIL", "state_at_finish": s[0]})
+        rep.oblige("TAIL", "finish@" + "@".join(s[:2] if s[0] == "N2" else s[:1]), ok, sample={"rule": "TAIL", "state_at_finish": s[0]})
         if not ok:
             what = {"N2": "two or more newlines (a blank line at end of file)", "M": "no final newline",
                     "MS": "a trailing blank and no final newline", "E": "nothing at all"}.get(s[0], s[0])
-            rep.add(Finding("TAIL", "TAIL|finish|%s" % s[0],
-                            "the writer can reach finish() with output ending in %s; the property requires exactly "
-                            "one final newline" % what, file=f0.file, line=f0.line, fn=FMT_ENTRY))
+            via = " (blank line produced by a newline in %s)" % s[1] if s[0] == "N2" else ""
+            rep.add(Finding("TAIL", "TAIL|finish|%s" % "|".join(s[:2] if s[0] == "N2" else s[:1]),
+                            "the writer can reach finish() with output ending in %s%s; the property requires exactly "
+                            "one final newline" % (what, via), file=f0.file, line=f0.line, fn=FMT_ENTRY))
     for (ofn, text), (nfn, ln) in sorted(ls.newline_in_MS.items()):
         short_fn = ofn.split("::")[-1]
         inst = "%s:%r" % (short_fn, text)
